@@ -68,13 +68,19 @@ func init() {
 		ops := []op{{"new", "top/root"}}
 		for i := 1 + r.Intn(5); i > 0; i-- {
 			if r.Intn(3) == 0 {
-				ops = append(ops, op{"new", pickS(r, []string{"sub", "l1", "l2", "sub/l1", "..", "sub/deep", "l3/sub", ".", "../outside", "l1/root", word()})})
+				ops = append(ops, op{"new", pickS(r, []string{"sub", "l1", "l2", "sub/l1", "..", "sub/deep", "l3/sub", ".", "../outside", "l1/root", word(),
+					// sideways and back: a root that is above an EARLIER (not the current) root of the stack is a cycle too
+					"sub", "../../outside", "../root", "../root/sub", "../../root", "../outside"})})
 			} else {
 				ops = append(ops, op{"load", pickS(r, []string{"f.yaml", "sub/f.yaml", "l1/f.yaml", "l1", "l2/f.yaml", "sub/l3/f.yaml", "../outside/f.yaml", "l1/../f.yaml", word(), word(),
 					// absolute and NOT clean: lexically inside the root, physically through a link
 					"/top/root/l1/../f.yaml", "/top/root/sub/l1/../f.yaml", "/top/root/l2/../root/f.yaml", "/top/root/l3/../f.yaml",
 					"../Root/f.yaml", "../ROOT/f.yaml", "/top/Root/f.yaml", "../root-evil/f.yaml"})})
 			}
+		}
+		if r.Intn(6) == 0 {
+			// down, sideways, and back above the FIRST root (not the current one)
+			ops = []op{{"new", "top/root"}, {"new", "sub"}, {"new", "../../outside"}, {"new", pickS(r, []string{"../root", "../root/sub", "../root-evil", "../../top", "l3/.."})}, {"load", "f.yaml"}}
 		}
 		var wfs, wops []interface{}
 		for _, e := range es {
